@@ -1038,7 +1038,7 @@ FASTOR_INLINE double sqrts(double a) {return _mm_cvtsd_f64(_mm_sqrt_pd(_mm_set1_
 //----------------------------------------------------------------------------------------------------------------//
 // helper functions for going from array to mask and vice-versa
 // used when AVX512 masking is available
-template <int N, enable_if_t_<N==2 || N==4 || N==8,bool> = false>
+template <int N, enable_if_t_<N==1 || N==2 || N==4 || N==8,bool> = false>
 FASTOR_INLINE uint8_t array_to_mask(const int (&b)[N])
 {
     uint8_t c = 0;
@@ -1084,7 +1084,7 @@ FASTOR_INLINE uint64_t array_to_mask(const int (&b)[N])
 }
 
 
-template <int N, enable_if_t_<N==2 || N==4 || N==8,bool> = false>
+template <int N, enable_if_t_<N==1 || N==2 || N==4 || N==8,bool> = false>
 FASTOR_INLINE void mask_to_array(uint8_t c, int (&b)[N])
 {
     for (int i=0; i < N; ++i)
